@@ -329,6 +329,22 @@ def generate(repo: str) -> str:
     mod = importlib.import_module('exabgp.reactor.protocol') and importlib.import_module('exabgp.bgp.message')
     registered = sorted(int(k) for k in mod.Message.registered_message)
 
+    # Peer._main: how the established loop reads.  The harness drives Peer._read_message_or_nop when it
+    # exists and the inline `wait_for(self.proto.read_message(), timeout=0.1)` otherwise; anything else is
+    # a read step this check does not know how to drive
+    peer_tree = ast.parse(open(os.path.join(repo, 'src/exabgp/reactor/peer/peer.py')).read())
+    f_main = find_function(peer_tree, ['Peer', '_main'])
+    calls = [dotted(n.func) for n in ast.walk(f_main) if isinstance(n, ast.Call)]
+    has_method = any(isinstance(n, (ast.FunctionDef, ast.AsyncFunctionDef)) and n.name == '_read_message_or_nop' for n in ast.walk(peer_tree))
+    if has_method:
+        if 'self._read_message_or_nop' not in calls or 'self.proto.read_message' in calls:
+            raise Untranslatable('Peer._main does not read through _read_message_or_nop only')
+        read_step = 1
+    else:
+        if 'asyncio.wait_for' not in calls or 'self.proto.read_message' not in calls:
+            raise Untranslatable('Peer._main: unknown read step')
+        read_step = 0
+
     out = []
     out.append('(* GENERATED by translate/t1_header.py - do not edit *)')
     out.append('From Coq Require Import ZArith Bool List.')
@@ -339,6 +355,7 @@ def generate(repo: str) -> str:
     out.append(f'Definition INITIAL_SIZE : Z := {initial}.')
     out.append(f'Definition EXTENDED_SIZE : Z := {extended}.')
     out.append('Definition MESSAGES : list Z := [' + '; '.join(str(m) for m in messages) + '].')
+    out.append(f'Definition MAIN_READ_STEP : Z := {read_step}.  (* 1: Peer._read_message_or_nop, 0: inline wait_for *)')
     out.append(f'Definition UNKNOWN_TYPE_NOTIFY : Z * Z := ({unknown[0]}, {unknown[1]}).')
     out.append('Definition REGISTERED : list Z := [' + '; '.join(str(m) for m in registered) + '].')
     out.append(f'Definition UNPACK_UNKNOWN_NOTIFY : Z * Z := ({unpack_unknown[0]}, {unpack_unknown[1]}).')
